@@ -407,6 +407,56 @@ def is_assertion_error(repo: Repo, name: str) -> bool:
     return "AssertionError" in exception_bases(repo, name)
 
 
+_exit_cache: dict[tuple[int, str], list[str] | None] = {}
+
+
+def exit_suppresses(repo: Repo, ci: ClassInfo) -> list[str] | None:
+    """Short names of the exception classes a `with <instance of ci>:` block swallows: `__exit__` can return a truthy value
+    while an exception is pending.  ["<bare>"] when no isinstance / issubclass test of the pending exception is implied by
+    the condition of such a return (anything is swallowed); None when `__exit__` never suppresses (or ci has none)."""
+    ck = (id(repo), ci.fq)
+    if ck in _exit_cache:
+        return _exit_cache[ck]
+    from core.guards import implies as g_implies, satisfiable
+
+    from .common import guard_formula, truth
+
+    out: list[str] | None = None
+    f = repo.lookup_method(ci, "__exit__")
+    if f is not None and not f.is_abstract and not isinstance(f.node, ast.Lambda):
+        params = f.param_names
+        t, v = (params[1], params[2]) if len(params) >= 3 and f.node.args.vararg is None else ("", "")
+        tests: list[tuple[Formula, list[str]]] = []
+        for n in own_nodes(f.node):
+            if isinstance(n, ast.Call) and isinstance(n.func, ast.Name) and n.func.id in ("issubclass", "isinstance") and len(n.args) == 2 and isinstance(n.args[0], ast.Name) and n.args[0].id in (t, v) and t:
+                xs = n.args[1].elts if isinstance(n.args[1], ast.Tuple) else [n.args[1]]
+                names = [(repo.resolve_name(f.module, x) or dotted(x) or norm(x)).split(".")[-1] for x in xs]
+                tests.append((atom(norm(n)) if n.func.id == "isinstance" else atom(f"bool({norm(n)})"), names))
+        pending = f_and([f for x in (t, v) if x for f in (f_not(atom(f"{x} is None")), atom(f"bool({x})"))])
+        caught: list[str] = []
+        for r in own_nodes(f.node):
+            if not isinstance(r, ast.Return) or r.value is None or (isinstance(r.value, ast.Constant) and not r.value.value):
+                continue
+            g = f_and([guard_formula(f, r), truth(f, r.value), pending])
+            if not satisfiable(g):
+                continue
+            hit = [names for a, names in tests if g_implies(g, a)]
+            if not hit:
+                caught = ["<bare>"]
+                break
+            caught += min(hit, key=len)
+        out = sorted(set(caught)) or None
+    _exit_cache[ck] = out
+    return out
+
+
+def suppress_call_types(repo: Repo, ctx: FuncInfo, e: ast.expr) -> list[str] | None:
+    """`contextlib.suppress(A, B)` as a context expression: the short names of A, B."""
+    if isinstance(e, ast.Call) and isinstance(e.func, (ast.Name, ast.Attribute)) and (repo.resolve_name(ctx.module, e.func) or dotted(e.func)) == "contextlib.suppress":
+        return [(repo.resolve_name(ctx.module, x) or dotted(x) or norm(x)).split(".")[-1] for x in e.args]
+    return None
+
+
 def is_generator(fi: FuncInfo) -> bool:
     return any(isinstance(n, (ast.Yield, ast.YieldFrom)) for n in own_nodes(fi.node))
 
@@ -534,6 +584,8 @@ class Sym:
                     return f_not(x.f)
                 if isinstance(x, Opq) and x.kind == "find" and y.value == -1:
                     return atom(f"notfound({x.key})")
+                if isinstance(x, Opq) and x.kind == "find" and isinstance(y.value, int) and not isinstance(y.value, bool) and y.value >= 0:
+                    return f_and([atom(f"{x.key} == {y.value}"), f_not(atom(f"notfound({x.key})"))])
                 if isinstance(x, Opq) and x.kind == "len" and x.meta and isinstance(x.meta[0], Opq) and x.meta[0].kind == "split" and y.value in (1, 2) and not isinstance(y.value, bool):
                     one = atom(f"notfound({x.meta[0].key})")
                     return one if y.value == 1 else f_not(one)
@@ -596,15 +648,21 @@ class Sym:
             return []
         out = []
         if node is not None and ctx is not None and not isinstance(base, (Const, Coll, BoolV)):
-            try:
-                t = self.T.expr(ctx, node)
-            except Exception:  # noqa: BLE001
-                t = ("unknown",)
-            for m in members(t):
-                if m[0] == "cls":
-                    ci = self.repo.classes.get(m[1])
-                    if ci is not None and ci not in out:
-                        out.append(ci)
+            sites = [(ctx, node)]
+            if isinstance(base, Opq) and base.kind == "attr" and base.key in self.__dict__.get("_origin", {}):
+                sites.append(self._origin[base.key])  # e.g. the result of a generic `_required(self._x, msg)` helper
+            for c_, n_ in sites:
+                try:
+                    t = self.T.expr(c_, n_)
+                except Exception:  # noqa: BLE001
+                    t = ("unknown",)
+                for m in members(t):
+                    if m[0] == "cls":
+                        ci = self.repo.classes.get(m[1])
+                        if ci is not None and ci not in out:
+                            out.append(ci)
+                if out:
+                    break
         return out
 
     def get_attr(self, base: Val, attr: str, st: State, node: ast.expr | None = None, ctx: FuncInfo | None = None) -> Val:
@@ -793,7 +851,11 @@ class Sym:
         base = self.eval(e.value, st, ctx)
         if isinstance(base, Opq) and base.kind == "libref":
             return Opq(f"{base.key}.{e.attr}", kind="libref")
-        return self.get_attr(base, e.attr, st, e.value, ctx)
+        v = self.get_attr(base, e.attr, st, e.value, ctx)
+        if isinstance(v, Opq) and v.kind == "attr":
+            # where the value was read: its static type there still describes it after it has travelled through untyped code
+            self.__dict__.setdefault("_origin", {}).setdefault(v.key, (ctx, e))
+        return v
 
     def _e_BoolOp(self, e, st, ctx):
         is_and = isinstance(e.op, ast.And)
@@ -848,6 +910,12 @@ class Sym:
         return BoolV(f_and(parts), deps)
 
     def compare(self, a: Val, op: ast.cmpop, b: Val, st: State) -> Formula:
+        if isinstance(op, (ast.Lt, ast.LtE, ast.Gt, ast.GtE)):
+            # orderings distribute over conditional values (`pos = text.rfind(t) if ... else -1; if pos < 0:`)
+            if isinstance(a, Phi):
+                return f_or([f_and([c, self.compare(x, op, b, st)]) for c, x in a.alts])
+            if isinstance(b, Phi):
+                return f_or([f_and([c, self.compare(a, op, x, st)]) for c, x in b.alts])
         if isinstance(op, ast.Is):
             if isinstance(b, Const) and b.value is None:
                 return self.is_none(a, st)
@@ -881,17 +949,23 @@ class Sym:
                     if (isinstance(o, ast.Lt) and n == 1) or (isinstance(o, ast.LtE) and n == 0):
                         return f_not(t)
                 if isinstance(x, Opq) and x.kind == "find":
+                    # str.find / rfind yield -1 ("not found") or a position >= 0; every ordering against an integer is
+                    # normalised to `x > m`, which for m >= 0 holds only when the needle was found
                     nf = atom(f"notfound({x.key})")
-                    if (isinstance(o, ast.Lt) and n == 0) or (isinstance(o, ast.LtE) and n == -1):
-                        return nf
-                    if (isinstance(o, ast.GtE) and n == 0) or (isinstance(o, ast.Gt) and n == -1):
-                        return f_not(nf)
+                    m, positive = {ast.Gt: (n, True), ast.GtE: (n - 1, True), ast.Lt: (n - 1, False), ast.LtE: (n, False)}[type(o)]
+                    g = TRUE if m < -1 else (f_not(nf) if m == -1 else f_and([atom(f"{x.key} Gt {m}"), f_not(nf)]))
+                    return g if positive else f_not(g)
                 if isinstance(x, Const) and isinstance(x.value, (int, float)):
                     try:
                         return ("const", bool({ast.Lt: x.value < n, ast.LtE: x.value <= n, ast.Gt: x.value > n, ast.GtE: x.value >= n}[type(o)]))
                     except Exception:  # noqa: BLE001
                         pass
-        return atom(f"{key(a)} {type(op).__name__} {key(b)}")
+        free = atom(f"{key(a)} {type(op).__name__} {key(b)}")
+        # `a < b` between two find-results: b is a position (>= 0 > -1 is the only way to exceed a value >= -1)
+        lo, hi = (a, b) if isinstance(op, ast.Lt) else ((b, a) if isinstance(op, ast.Gt) else (None, None))
+        if isinstance(lo, Opq) and isinstance(hi, Opq) and lo.kind == "find" and hi.kind == "find":
+            return f_and([free, f_not(atom(f"notfound({hi.key})"))])
+        return free
 
     def _e_JoinedStr(self, e, st, ctx):
         parts = []
@@ -933,6 +1007,10 @@ class Sym:
         if isinstance(a, Coll) or isinstance(b, Coll):
             items = (self.exact_items(a, st) or []) + (self.exact_items(b, st) or []) if isinstance(e.op, (ast.Add, ast.BitOr)) else []
             return self.new_coll(st, "list" if isinstance(e.op, ast.Add) else "set", items, exact=False, deps=deps)
+        if isinstance(e.op, (ast.Add, ast.Sub)) and isinstance(a, Opq) and a.kind in ("find", "offset") and isinstance(b, Const) and isinstance(b.value, int) and not isinstance(b.value, bool):
+            # a search position moved by a constant: (position, displacement)
+            base_pos, off = (a, 0) if a.kind == "find" else a.meta
+            return Opq(f"({key(a)} {type(e.op).__name__} {key(b)})", deps, kind="offset", meta=(base_pos, off + (b.value if isinstance(e.op, ast.Add) else -b.value)))
         return Opq(f"({key(a)} {type(e.op).__name__} {key(b)})", deps)
 
     def _seq(self, e, st, ctx, kind):
@@ -983,7 +1061,12 @@ class Sym:
     def _e_Lambda(self, e, st, ctx):
         fi = getattr(e, "_func", None)
         if fi is None:
-            return Opq(f"<lambda@{getattr(e, 'lineno', 0)}>")
+            # a lambda outside any function (module-level table of predicates, class attribute, default value): the loader
+            # indexes only lambdas nested in functions, so give it a function record of its own (one per lambda node)
+            cache = self.__dict__.setdefault("_module_lambdas", {})
+            fi = cache.get(id(e))
+            if fi is None:
+                fi = cache[id(e)] = FuncInfo(name="<lambda>", qualname=f"<module>.<lambda@{getattr(e, 'lineno', 0)}:{getattr(e, 'col_offset', 0)}>", node=e, module=ctx.module)
         return FnV(fi, None, _Closure(dict(st.vars)))
 
     def _e_NamedExpr(self, e, st, ctx):
@@ -1024,10 +1107,18 @@ class Sym:
         base = self.eval(e.value, st, ctx)
         if isinstance(e.slice, ast.Slice):
             deps = self.deps(base, st)
+            bounds, bvals = [], []
             for x in (e.slice.lower, e.slice.upper, e.slice.step):
-                if x is not None:
-                    deps |= self.deps(self.eval(x, st, ctx), st)
-            return Opq(f"{key(base)}[{norm(e.slice, 40)}]", deps, kind="slice")
+                bv = self.eval(x, st, ctx) if x is not None else None
+                bvals.append(bv)
+                if bv is not None:
+                    deps |= self.deps(bv, st)
+                bounds.append(key(bv) if bv is not None else "")
+            # keyed by the values of the bounds (not by the names of the variables that hold them)
+            res = Opq(f"{key(base)}[{':'.join(bounds).rstrip(':') or ':'}]", deps, kind="slice")
+            if not isinstance(base, Coll):
+                self.emit("slice", "[:]", bvals[:2], base, st, ctx, e, ("unknown",), res)
+            return res
         idx = self.eval(e.slice, st, ctx)
         return self.subscript(base, idx, st, ctx, e)
 
@@ -1462,6 +1553,8 @@ class Sym:
         if name == "bool" and len(args) == 1:
             return BoolV(self.truth(args[0], st), deps)
         if name == "len" and len(args) == 1:
+            if isinstance(args[0], Const) and isinstance(args[0].value, (str, bytes)):
+                return Const(len(args[0].value))
             items = self.exact_items(args[0], st)
             if items is not None and all(c == TRUE for _v, c in items):
                 return Const(len(items))
@@ -1501,6 +1594,12 @@ class Sym:
             return Opq(f"{name}({key(args[0])})", deps, kind="str")
         if name == "super":
             return Opq("<super>", kind="super")
+        if name in ("max", "min") and len(args) >= 2 and not kwargs:
+            if all(isinstance(a, Const) and isinstance(a.value, (int, float)) and not isinstance(a.value, bool) for a in args):
+                return Const((max if name == "max" else min)(a.value for a in args))
+            res = Opq(f"{name}({', '.join(key(a) for a in args)})", deps, kind=name, meta=tuple(args))
+            self.emit("call", name, args, None, st, ctx, e, ("b", "builtin", ()), res)
+            return res
         if name in ("max", "min", "abs", "sum", "zip", "enumerate", "range", "map", "filter", "iter", "next", "open", "print", "type", "id", "hash", "round", "divmod", "ord", "chr", "callable", "issubclass", "vars", "dir", "format"):
             res = Opq(f"{name}({', '.join(key(a) for a in args)})#{self.fresh() if name in ('open', 'next', 'iter') else ''}".rstrip("#"), deps, kind="call")
             self.emit("call", name, args, None, st, ctx, e, ("b", "builtin", ()), res)
@@ -1557,6 +1656,11 @@ class Sym:
         if attr in STR_SEARCH and args and (is_str or not self.classes_of(base, e.func.value, ctx)):
             res = Opq(f"{key(base)}.{attr}({', '.join(key(a) for a in args)})", bdeps, kind="find" if attr in ("find", "rfind") else "index", meta=(self.deps(args[0], st), self.deps(base, st)))
             self.emit("call", attr, args, base, st, ctx, e, t, res)
+            if attr in ("find", "rfind") and len(args) == 3 and isinstance(args[0], Const) and isinstance(args[0].value, str) and args[0].value:
+                # text.rfind(needle, 0, max(earlier - k, 0)): when the earlier search found nothing (-1) the range is empty and
+                # a non-empty needle is not found either.  (An unclamped `earlier - k` would be a negative = end-relative bound.)
+                for earlier in self._clamped_positions(args[2]):
+                    st.path.append(f_or([f_not(atom(f"notfound({earlier.key})")), atom(f"notfound({res.key})")]))
             return res
         if attr in ("search", "match", "fullmatch") and args and isinstance(base, Opq) and (base.key.startswith("re.compile(") or any(m[0] == "lib" and m[1].startswith("re.") for m in members(t))):
             res = Opq(f"{key(base)}.{attr}({key(args[0])})", bdeps, kind="search", meta=(self.deps(base, st), self.deps(args[0], st)))
@@ -1597,6 +1701,24 @@ class Sym:
             self.emit("mutate", attr, args, base, st, ctx, e, t)
             return Opq(f"{key(base)}.{attr}({', '.join(key(a) for a in args)})#{self.fresh()}", bdeps)
         return None
+
+    @staticmethod
+    def _clamped_positions(hi: Val) -> list[Opq]:
+        """Find-results p such that the bound `hi` is 0 whenever p is -1: hi = max(p + d, 0, <constants <= 0>) with d <= 1."""
+        if not (isinstance(hi, Opq) and hi.kind == "max" and any(isinstance(a, Const) and a.value == 0 and not isinstance(a.value, bool) for a in hi.meta)):
+            return []
+        out = []
+        for a in hi.meta:
+            if isinstance(a, Const):
+                if not (isinstance(a.value, int) and a.value <= 0):
+                    return []
+            elif isinstance(a, Opq) and a.kind == "find":
+                out.append(a)  # max(-1, 0) == 0
+            elif isinstance(a, Opq) and a.kind == "offset" and a.meta[1] <= 1:
+                out.append(a.meta[0])  # max(-1 + d, 0) == 0 for d <= 1
+            else:
+                return []
+        return out if len(out) == 1 else []
 
     def coll_method(self, c: Coll, attr: str, args, st: State, ctx, e, alldeps) -> Val:
         cs: CollState = st.store[key(c)]
@@ -1803,6 +1925,7 @@ class Sym:
         names: set[str] = set()
         attrs: list[ast.expr] = []
         mutated: list[ast.expr] = []
+        managers: list[ast.expr] = []
         for st_ in body:
             for n in ast.walk(st_):
                 if isinstance(n, ast.Name) and isinstance(n.ctx, ast.Store):
@@ -1815,6 +1938,9 @@ class Sym:
                     mutated.append(n.value)
                 elif isinstance(n, ast.AugAssign):
                     mutated.append(n.target)
+                elif isinstance(n, (ast.With, ast.AsyncWith)):
+                    managers += [it.context_expr for it in n.items]  # __enter__ / __exit__ run on the manager
+        self._managers_in_body = managers
         return names, attrs, mutated
 
     def havoc(self, body: list[ast.stmt], st: State, ctx: FuncInfo, n: int, skip: set[str] = frozenset()) -> None:
@@ -1828,6 +1954,12 @@ class Sym:
             cs = self.coll_state(v, st) if v is not None else None
             if cs is not None:
                 st.store[key(v)] = dc_replace(cs, exact=False, ver=cs.ver + 100 + n, complete_of=None)
+        for m in self._managers_in_body:
+            if not any(isinstance(x, ast.Call) for x in ast.walk(m)):
+                try:
+                    self._havoc_object(self.eval(m, st, ctx), st, n)
+                except Exception:  # noqa: BLE001
+                    pass
         for a in attrs:
             try:
                 b = self.eval(a.value, st, ctx)
@@ -1956,11 +2088,52 @@ class Sym:
         return after
 
     def _s_With(self, s, st, ctx):
+        swallowed: list[str] = []
         for item in s.items:
             v = self.eval(item.context_expr, st, ctx)
             if item.optional_vars is not None:
                 self.assign(item.optional_vars, v, st, ctx)
-        return self.block(s.body, st, ctx)
+            types = suppress_call_types(self.repo, ctx, item.context_expr)
+            if types is None:
+                # a context manager class of the repository: __enter__ / __exit__ may change the manager's own state, and
+                # __exit__ may swallow what the block raises
+                if isinstance(v, (Ref, Phi)):
+                    self._havoc_object(v, st, self.fresh())
+                for ci in self._manager_classes(v, item.context_expr, ctx):
+                    types = (types or []) + (exit_suppresses(self.repo, ci) or [])
+            swallowed += types or []
+        if not swallowed:
+            return self.block(s.body, st, ctx)
+        # `with m: body` where m swallows E  ==  `try: body / except E: pass`
+        ty = None if "<bare>" in swallowed else ast.Tuple(elts=[ast.Name(id=t, ctx=ast.Load()) for t in sorted(set(swallowed))], ctx=ast.Load())
+        synth = ast.Try(body=s.body, handlers=[ast.ExceptHandler(type=ty, name=None, body=[ast.Pass()])], orelse=[], finalbody=[])
+        ast.copy_location(synth, s)
+        return self._s_Try(synth, st, ctx)
+
+    def _manager_classes(self, v: Val, node: ast.expr, ctx: FuncInfo) -> list[ClassInfo]:
+        if isinstance(v, Phi):
+            out: list[ClassInfo] = []
+            for _c, a in v.alts:
+                out += [c for c in self._manager_classes(a, node, ctx) if c not in out]
+            return out
+        return self.classes_of(v, node, ctx)
+
+    def _havoc_object(self, v: Val, st: State, n: int) -> None:
+        """Forget the attributes of an object of the repository whose methods ran unseen."""
+        if isinstance(v, Phi):
+            for _c, a in v.alts:
+                self._havoc_object(a, st, n)
+            return
+        if not isinstance(v, Ref):
+            return
+        prefix = key(v) + "."
+        for k in [k for k in st.store if k.startswith(prefix)]:
+            cur = st.store[k]
+            cs = self.coll_state(cur, st)
+            if cs is not None:
+                st.store[key(cur)] = dc_replace(cs, exact=False, ver=cs.ver + 100 + n, complete_of=None)
+            elif not isinstance(cur, (FnV, ClsV)):
+                st.store[k] = Opq(f"{k}@W{n}", self.deps(cur, st), kind="attr")
 
     _s_AsyncWith = _s_With
 
